@@ -3451,7 +3451,9 @@ def translate(items, namespace='Ruint.Gen', imports=('Ruint.Gen.Prelude',), fns=
             continue
         try:
             src = open(it['file']).read()
-            if it.get('after'):
+            if it.get('text'):
+                text = it['text']                  # the item instantiated a macro arm itself
+            elif it.get('after'):
                 # several functions of this name in the file: search after the named anchor (the `impl` header)
                 if it['after'] not in src:
                     raise TranslateError('anchor not found: %s' % it['after'])
@@ -3981,6 +3983,69 @@ def str_items(repo):
              'enum_files': [repo + '/src/base_convert.rs'], 'str_params': True}]
 
 
+def bits_forward_items(repo):
+    """the methods of `Bits` generated by the `forward!` macro of src/bit_arr.rs: every line of every `forward! { … }` invocation
+    is matched against the macro's arms in order (receiver form, `const` / `unsafe`, literal return type or a `$res` wildcard —
+    what `macro_rules!` does), the matching arm's body is instantiated, and the result is translated as a method of `Uint`:
+    `Bits` is a transparent wrapper (`self.0`, `.into()`, `Bits::from`, `Bits(..)` are the identity — declared). Optional items."""
+    f = repo + '/src/bit_arr.rs'
+    try:
+        src = open(f).read()
+    except (OSError, IOError):
+        return []
+    m0 = re.search(r'macro_rules! forward \{', src)
+    if not m0:
+        return []
+    k = m0.end()
+    depth = 1
+    while depth and k < len(src):
+        depth += (src[k] == '{') - (src[k] == '}')
+        k += 1
+    mac = src[m0.end():k - 1]
+    arms = []
+    for am in re.finditer(r'\(\$\((.*?)\)\*\) => \{(.*?)\n    \};', mac, re.S):
+        pat, body = am.group(1), am.group(2)
+        fm = re.search(r'pub\s+((?:const\s+|unsafe\s+)?)fn\s+\$fnname.*?\)\s*->\s*([^{]*?)\s*\{(.*?)\n\s*\}', body, re.S)
+        if not fm:
+            continue
+        recv = ('&mut self' if '(&mut self)' in pat else '&self' if '(&self)' in pat else
+                'self,' if '(self, $arg' in pat else 'self' if '(self)' in pat else 'none')
+        ret = re.search(r'->\s*(.*?);\s*$', pat.strip(), re.S).group(1).strip()
+        arms.append({'qual': fm.group(1).strip(), 'recv': recv, 'ret': ret, 'body': fm.group(3).strip()})
+    out = []
+    for inv in re.finditer(r'forward!\s*\{(.*?)\n    \}', src[k:], re.S):
+        for line in re.split(r';\s*\n', inv.group(1) + '\n'):
+            line = line.strip().rstrip(';')
+            lm = re.fullmatch(r'((?:const\s+|unsafe\s+)?)fn\s+(\w+)\s*(<[^>]*>)?\s*\((.*)\)\s*->\s*(.*)', line, re.S)
+            if not lm:
+                continue
+            qual, name, gen, params, ret = lm.group(1).strip(), lm.group(2), lm.group(3) or '', lm.group(4).strip(), lm.group(5).strip()
+            recv = ('&mut self' if params == '&mut self' else '&self' if params == '&self' else 'self' if params == 'self' else
+                    'self,' if params.startswith('self,') else 'none')
+            arm = None
+            for a in arms:
+                if a['qual'] == qual and a['recv'] == recv and (a['ret'] == ret or a['ret'].startswith('$res')
+                                                               or (a['ret'].startswith('Result<Self') and ret.startswith('Result<Self'))):
+                    arm = a
+                    break
+            if arm is None:
+                continue
+            args = [x.split(':')[0].strip() for x in params.split(',') if ':' in x]
+            body = arm['body'].replace('$fnname', name).replace('$($arg),+', ', '.join(args))
+            if args:
+                body = body.replace('$arg', args[0])
+            # `Bits` is `#[repr(transparent)] struct Bits(Uint)`: wrapping and unwrapping are the identity
+            body = re.sub(r'\.map\(Bits::from\)', '', body)
+            body = re.sub(r'\.into\(\)', '', body)
+            body = re.sub(r'\bBits\((Uint::.*)\)\s*$', r'\1', body, flags=re.S)
+            body = body.replace('&mut self.0', 'self').replace('&self.0', 'self').replace('self.0', 'self').replace('Uint::', 'Self::')
+            text = 'pub fn %s%s(%s) -> %s {\n%s\n}' % (name, gen, params, ret.replace('Self', 'Uint<BITS, LIMBS>') if False else ret, body)
+            out.append({'file': f, 'fn': name, 'lean': 'bits_%s' % name, 'key': 'Bits::%s' % name, 'uint': True, 'self_ty': 'uint',
+                        'group': 'bitsfwd', 'externs': UINT_EXTERNS, 'optional': True, 'text': text,
+                        'enum_files': [repo + '/src/string.rs', repo + '/src/base_convert.rs']})
+    return out
+
+
 def macro_items(repo):
     """`pad_limbs` of the `uint!` proc macro (ruint-macro/src/lib.rs): trim / pad to the limb count and the range check"""
     f = repo + '/ruint-macro/src/lib.rs'
@@ -4068,7 +4133,8 @@ GROUPS = [('core', 'Words', ('Ruint.Gen.Prelude',)),
                                      'Ruint.Gen.WordsBytes', 'Ruint.Gen.WordsConv', 'Ruint.Gen.WordsConv2')),
           ('der', 'WordsDer', ('Ruint.Gen.WordsBytes',)),
           ('str', 'WordsStr', ('Ruint.Gen.WordsRadix', 'Ruint.Gen.PreludeRes', 'Ruint.Gen.PreludeStr')),
-          ('macro2', 'WordsMacro2', ('Ruint.Gen.Prelude', 'Ruint.Gen.PreludeRes', 'Ruint.Gen.PreludeStr'))]
+          ('macro2', 'WordsMacro2', ('Ruint.Gen.Prelude', 'Ruint.Gen.PreludeRes', 'Ruint.Gen.PreludeStr')),
+          ('bitsfwd', 'WordsBitsFwd', ('Ruint.Gen.WordsUint', 'Ruint.Gen.WordsBytes', 'Ruint.Gen.WordsStr', 'Ruint.Gen.WordsUintMod'))]
 
 
 def translate_all(repo):
@@ -4104,6 +4170,7 @@ def translate_all(repo):
     items += facade_items(repo)
     items += der_items(repo)
     items += str_items(repo)
+    items += bits_forward_items(repo)
     try:
         items += lehmer_items(repo)
     except (OSError, IOError) as ex:
